@@ -124,7 +124,8 @@ func CoerceBool(v Value) bool {
 	case bool:
 		return vc
 	case Boolean:
-		return vc.Boolean()
+		b, _ := callPromoted(v, "Boolean", func() Value { return vc.Boolean() }).(bool)
+		return b
 	case uint:
 		return vc > 0
 	case uint8:
@@ -154,9 +155,9 @@ func CoerceBool(v Value) bool {
 	case decimal.Decimal:
 		return vc.GreaterThan(decimal.Zero)
 	case Stringer:
-		return len(vc.String()) > 0
+		return len(callString(vc)) > 0
 	case Number:
-		return vc.Number() > 0
+		return callNumber(vc) > 0
 	default:
 		if u, ok := underlying(v); ok {
 			return CoerceBool(u)
@@ -183,7 +184,7 @@ func CoerceNumber(v Value) float64 {
 	case SafeValue:
 		return CoerceNumber(vc.Value())
 	case Number:
-		return vc.Number()
+		return callNumber(vc)
 	case uint:
 		return float64(vc)
 	case uint8:
@@ -212,11 +213,11 @@ func CoerceNumber(v Value) float64 {
 		f, _ := vc.Float64()
 		return f
 	case Stringer:
-		return stringToFloat(vc.String())
+		return stringToFloat(callString(vc))
 	case string:
 		return stringToFloat(vc)
 	case Boolean:
-		if vc.Boolean() {
+		if b, _ := callPromoted(v, "Boolean", func() Value { return vc.Boolean() }).(bool); b {
 			return 1
 		}
 	case bool:
@@ -243,7 +244,7 @@ func CoerceString(v Value) string {
 	case string:
 		return vc
 	case Stringer:
-		return vc.String()
+		return callString(vc)
 	case float32:
 		return formatFloat(float64(vc), vc)
 	case float64:
@@ -251,9 +252,9 @@ func CoerceString(v Value) string {
 	case int, int8, int16, int32, int64, uint, uint8, uint16, uint32, uint64:
 		return fmt.Sprintf("%v", vc)
 	case Number:
-		return fmt.Sprintf("%v", vc.Number())
+		return fmt.Sprintf("%v", callNumber(vc))
 	case Boolean:
-		if vc.Boolean() == true {
+		if b, _ := callPromoted(v, "Boolean", func() Value { return vc.Boolean() }).(bool); b {
 			return "1" // Twig compatibility (aka PHP compatibility)
 		}
 	case bool:
@@ -266,6 +267,68 @@ func CoerceString(v Value) string {
 		}
 	}
 	return ""
+}
+
+// callPromoted returns what call returns, or nil if it panics because the
+// method of v that it calls, the one with the given name, is promoted from an
+// embedded pointer or interface that is nil: such a method exists but cannot
+// be called, like a method with a value receiver on a nil pointer. Any other
+// panic is the method's own business and is passed on.
+func callPromoted(v Value, name string, call func() Value) (res Value) {
+	defer func() {
+		if p := recover(); p != nil {
+			if !promotedFromNil(reflect.ValueOf(v), name, 0) {
+				panic(p)
+			}
+			res = nil
+		}
+	}()
+	return call()
+}
+
+func callString(v Stringer) string {
+	s, _ := callPromoted(v, "String", func() Value { return v.String() }).(string)
+	return s
+}
+
+func callNumber(v Number) float64 {
+	f, _ := callPromoted(v, "Number", func() Value { return v.Number() }).(float64)
+	return f
+}
+
+// promotedFromNil reports whether the struct r (possibly behind pointers) has
+// an embedded pointer or interface that is nil and provides a method with the
+// given name.
+func promotedFromNil(r reflect.Value, name string, depth int) bool {
+	for r.Kind() == reflect.Ptr || r.Kind() == reflect.Interface {
+		if r.IsNil() {
+			return false
+		}
+		r = r.Elem()
+	}
+	if r.Kind() != reflect.Struct || depth > 8 {
+		return false
+	}
+	for i := 0; i < r.NumField(); i++ {
+		f := r.Type().Field(i)
+		if !f.Anonymous {
+			continue
+		}
+		fv := r.Field(i)
+		switch fv.Kind() {
+		case reflect.Ptr, reflect.Interface:
+			if fv.IsNil() {
+				if _, ok := f.Type.MethodByName(name); ok {
+					return true
+				}
+				continue
+			}
+		}
+		if promotedFromNil(fv, name, depth+1) {
+			return true
+		}
+	}
+	return false
 }
 
 // formatFloat formats the floating point value v, whose float64 value is f.
@@ -370,7 +433,15 @@ func GetAttr(v Value, attr Value, args ...Value) (Value, error) {
 			}
 			rargs[k] = rarg
 		}
-		res := retval.Call(rargs)
+		called := false
+		res, _ := callPromoted(v, CoerceString(attr), func() Value {
+			out := retval.Call(rargs)
+			called = true
+			return out
+		}).([]reflect.Value)
+		if !called {
+			return nil, fmt.Errorf("getattr: method \"%s\" on \"%v\" is promoted from an embedded value that is nil", attr, describe(v))
+		}
 		if len(res) == 0 {
 			return nil, nil
 		}
